@@ -21,12 +21,12 @@ Oracle (the statement, clause by clause; reference code in mc/c17_ref.py):
              for the selected profile set.
   importer   load_score_midi(...) with every combination of estimate_voice_info / estimate_key
              returns a score whose notes (tie chains merged) have exactly the file's multiset of
-             MIDI pitches, each pitch on the note (start tick, end tick) it has in the file; with estimate_key the parts carry the estimated key at time 0; with
-             estimated voices every note has a positive voice.
+             MIDI pitches, each pitch on the note (start tick, end tick) it has in the file; with
+             estimate_key the parts carry the estimated key at time 0; with estimated voices every
+             note has a positive voice.
 """
 import itertools
 import os
-import shutil
 import tempfile
 from collections import Counter
 from fractions import Fraction
@@ -53,26 +53,7 @@ ASSUMPTIONS = [
     "importer: estimate_voice_info fills voices only where the assign mode gives none (the code's reading of the docstring)",
     "mido (MIDI file format) and numpy are trusted",
 ]
-CHUNK = 40
-
-_TMP = {"dir": None, "pid": None}
-
-
-def _tmpdir():
-    if _TMP["dir"] is None or _TMP["pid"] != os.getpid():
-        _TMP["dir"] = tempfile.mkdtemp(prefix="c17-")
-        _TMP["pid"] = os.getpid()
-        import atexit
-
-        d = _TMP["dir"]
-        p = os.getpid()
-
-        def _rm():
-            if os.getpid() == p:
-                shutil.rmtree(d, ignore_errors=True)
-
-        atexit.register(_rm)
-    return _TMP["dir"]
+CHUNK = 12
 
 
 # ---------------------------------------------------------------------------------------------
@@ -355,7 +336,8 @@ def eval_midi(case):
     tracks, ppq = case["tracks"], case["ppq"]
     mode, ev, ek = case["mode"], case["voices"], case["key"]
     res = CaseResult(states=0, transitions=1, traces=1)
-    path = os.path.join(_tmpdir(), "c.mid")
+    fd, path = tempfile.mkstemp(prefix="c17-", suffix=".mid")  # removed again below, nothing is left behind
+    os.close(fd)
     R.write_midi(path, tracks, ppq)
     ctx = "part_voice_assign_mode=%d estimate_voice_info=%r estimate_key=%r ppq=%d tracks=%r" % (mode, ev, ek, ppq, tracks)
     try:
@@ -564,7 +546,8 @@ def gen_periodic(kind, lengths, shapes, motifs=MOTIFS, twice=False):
             for shape in shapes:
                 for n in lengths:
                     rows = _periodic_rows(motif, shape, n)
-                    c = dict(k=kind, rows=rows, layout=_cycle_layout(i), perms="some")
+                    # inputs of several hundred rows: two row orders (cost), otherwise five
+                    c = dict(k=kind, rows=rows, layout=_cycle_layout(i), perms="some" if n <= 120 else "two")
                     if kind == "voices":
                         c["twice"] = twice
                     yield c
